@@ -153,6 +153,7 @@ def main():
     files_scanned = set()
     replays_extra = {}
     replay_texts = {}
+    rewrites = []
     try:
         with shv.Scratch(keep=a.keep) as sc:
             for uname in cfg['units']:
@@ -167,6 +168,9 @@ def main():
                     for rel, hf in unit['inject']:
                         sc.inject(rel, hf)
                         files_scanned.add(hf)
+                    for rel, pat, rep, mn in unit.get('rewrite', []):
+                        n = sc.rewrite(rel, pat, rep, mn)
+                        rewrites.append('%s: %d x /%s/ -> %s' % (rel, n, pat, rep))
                     for f in unit.get('scan', []):
                         files_scanned.add(f)
                     to = unit.get('timeout', {}).get(a.tier, 900 if a.tier == 'quick' else 3600)
@@ -299,6 +303,7 @@ def main():
             'functions_under_contract': sorted({P.OBLIGATIONS[o].get('fn', '?') for o in expected}),
             'obligation_list': {o: ('discharged' if o in discharged else 'bounded-ok' if o in bounded_ok else 'FAILED' if o in failed else 'undecided') for o in expected},
             'harness_reports': unit_reports,
+            'source_rewrites_in_scratch_copy': rewrites,
             'samples': samples or [{'note': 'no obligation discharged in this run'}],
             'explanation': cfg.get('explanation', ''),
             'exhaustive': False,
